@@ -68,7 +68,7 @@ StimsFor(role) ==
                          \cup {RestartEx(f, i, r, t) : f \in {"B","X","A"}, i \in {"A","B"}, r \in {"A","B","X"}, t \in {1, 2}}
                          \cup (IF amInit THEN {[St("RecvRequest") EXCEPT !.from = f, !.msg = ReqRestart(1, pull, "v0", "base")] : f \in {"B","X"}}
                                ELSE {[St(kk) EXCEPT !.from = f, !.msg = ReqRestart(1, pl, v, b)] : kk \in {"RecvRequest","OnRequestReceived"}, f \in {"B","X"}, pl \in BOOLEAN,
-                                        v \in {"v0","v1","v3","v0@vtB"}, b \in {"base","other"}})
+                                        v \in {"v0","v1","v3","v0@vtB"}, b \in {"base","other","base#cbor"}})      \* "base#cbor": the same digest under another codec - not the original base CID
                          \cup {[St("SendVoucher") EXCEPT !.msg.v = "v4"], [St("SendVoucherResult") EXCEPT !.msg.v = "r4"], St("UpdateValidation")}
     [] Family = "c04" -> {[St(k) EXCEPT !.from = "B", !.msg = ReqRestart(1, pull, "v0", "base"), !.val = v] : k \in {"RecvRequest","OnRequestReceived"}, v \in ValSet}
                          \cup {[St("UpdateValidation") EXCEPT !.val = v] : v \in ValSet}
